@@ -96,3 +96,9 @@ chk("C06", "model_checking", "E2+E1",
     "explicit-state search supplies the genomes; duplicate + pointer walk + mutate-one-side-compare-the-other under deviation-bounded enumeration of the mutators' choices; E1 over spawning",
     "Every GenomeSpace state plus corner genomes (mostly disabled, no trait references, non-default activations, modular with enabled/disabled module) is duplicated: the copy must be bit-equal (id excepted), share no pointer with the original (full object-graph walk), and mutating either side with each of 9 mutators (every choice sequence within the bound) must leave the other side's snapshot unchanged. NewPopulation from 5 start genomes, sizes 1-4, all draw sequences within the bound: spawned genomes differ from the start genome only in weights, mutation number mirrors weight.",
     _E2NOTE, "DESIGN.md section 3 C06")
+
+chk("C08", "model_checking", "E4+E1",
+    "bounded-exhaustive enumeration of existing populations x ordered batches with a lock-step list-of-lists reference; the same reference on every baby batch of deviation-bounded multi-epoch runs",
+    "(a) A family of structurally different genomes (8 quick; all 16 hidden-node subsets x weight settings thorough) differing by excess and by disjoint genes: every way to pre-speciate an ordered choice of up to 2 members x every ordered batch of up to 3 further members (plus a repeated member) x 5 thresholds x both methods x 3 coefficient rows x 2 id layouts; the real speciate is followed organism by organism by a reference that recomputes the library's distance to each representative (any minimiser accepted on ties; new species iff none below threshold, with an id above every id issued before) and the final species lists are compared. (b) the same reference on the babies of every epoch of the E1 runs (species-wise driving) and on NewPopulation / NewPopulationRandom / ReadPopulation.",
+    "Family and batch sizes bounded; the distance function itself is trusted here (C07 checks it). Trusts overlay + accessors.",
+    "DESIGN.md section 3 C08")
